@@ -52,8 +52,26 @@ INFO = {
  ('2','C17','m2'): ("Subject::error no longer clears the observer map before delivering: the ending is an error, the source is a Subject, the callbacks are subscribed directly, the caller does not unsubscribe", []),
  ('2','C19','m1'): ("first_terminal: read flag, return if set, else write-lock and set without re-check: two threads delivering different terminal kinds both read false before either writes", []),
  ('2','C19','m2'): ("the error wrapper publishes `terminated` only after the user's error handler returned: a completion reaches the subscriber on another thread while the error handler runs", []),
- ('2','C07','m1'): ("(see NOTES.md)", []),
- ('2','C07','m2'): ("(see NOTES.md)", []),
+ ('2','C07','m1'): ("AsyncFunctionQueue::stop takes abort.write() first and keeps it while taking the queue mutex (the worker takes them in the other order): abort() from another thread while the worker cycles through its queue or is being woken by a post", []),
+ ('2','C07','m2'): ("ref_count keeps its `connected` flag write-locked across the connect: synchronous source below ref_count, the only subscriber leaves during the emission (count 0) and a re-subscribe from the same callback chain brings it back to 1", []),
+ ('3','C03','m1'): ("StreamController serial = unscribers.len(): flat_map with three overlapping hot inners ending oldest-first (outer a, outer b, inner A completes, outer c, outer completes, inner B completes -> C still live but downstream completed)", []),
+ ('3','C03','m2'): ("amb forwards every error without the is_win check: a source W signals first, then a different, so far silent source L raises an error", ['C04']),
+ ('3','C04','m1'): ("on_error_resume_next forwards the source's error when the fallback observable fails with a different payload", []),
+ ('3','C04','m2'): ("Subject::error notifies before it clears the observer map: a plain Subject feeds retry / retry_when / on_error_resume_next, the subject errors while a retry is still allowed (the resubscription inside the notification is wiped) and emits again afterwards", ['C10']),
+ ('3','C05','m1'): ("Drop for Using returns early while the thread is panicking: the scope owning the guard is left by a panic that is caught further up", []),
+ ('3','C05','m2'): ("FunctionWrapper::clear uses try_write and skips a busy slot: at the instant of fn_next.clear() another thread holds that slot's read lock", []),
+ ('3','C08','m1'): ("the worker waits with wait_timeout_while(1 s) and treats a timed-out wake-up with an empty queue as stop: the queue stays empty for >= 1 s of (virtual) time, then a post", ['C09']),
+ ('3','C08','m2'): ("lazy worker start with a non-atomic first-post check: two poster threads are both inside the very first post within the spawn window -> two workers on one queue", []),
+ ('3','C09','m1'): ("idle worker exits after 1 s (wait_timeout_while, timeout mistaken for abort): a pause of >= 1 s between two events of the source", ['C08']),
+ ('3','C09','m2'): ("observe_on delivers the error without going through the scheduler: the source ends with an error (with items still queued: overtaking and loss)", []),
+ ('3','C10','m1'): ("Subject::error/complete call the observers first and clear the map afterwards: an observer subscribes from inside a terminal callback of the same subject and is wiped by the late clear", []),
+ ('3','C10','m2'): ("the ReplaySubject replay closure copies was_completed instead of holding its read guard: complete() on another thread while a late subscriber's replay is in progress is swallowed", ['C12']),
+ ('3','C12','m1'): ("ReplaySubject's per-subscriber replay mark turned into a high-water mark: two producers interleaved as P0 appends k, P1 appends k+1, P1 broadcasts, P0 broadcasts (dropped)", []),
+ ('3','C12','m2'): ("Subject resets its serial counter when the last observer leaves: an unsubscribe of the only observer overlaps a newcomer between taking its serial and inserting itself, then two more subscriptions (the second replaces the newcomer)", []),
+ ('3','C13','m1'): ("Subject keys an observer by observers.len()+1: subscribe A, subscribe B, unsubscribe A (the older one), subscribe C -> C replaces B", ['C10']),
+ ('3','C13','m2'): ("ReplaySubject's post-replay check narrowed to 'a terminal was stored': a late observable().take(k), 1 <= k <= n stored items, completes inside the replay and its inner registration leaks, so the source is never released", []),
+ ('3','C14','m1'): ("retry_when clears its (shared, shallow-cloned) predicate when a stream fails: a subscription ends with a rejected error, the same observable is subscribed again and raises an error the predicate would accept", []),
+ ('3','C14','m2'): ("amb's winner cell hoisted out of the per-subscription closure: a second subscription in which a source in a different position signals first", []),
 }
 
 def rows(path):
